@@ -413,6 +413,10 @@ func RollCoC(src *rand.PCGSource, isBonus bool, diceNum IntType, mode int) (IntT
 
 	for i := IntType(0); i < diceNum; i++ {
 		n := Roll(src, 10, mode)
+		if mode == -1 {
+			// 最小值模式: 此时 D100=1 个位不为0，十位骰的最小面是 0 (以10表示) 而不是 1
+			n = 10
+		}
 
 		if n == 10 {
 			num10Exists = true
